@@ -1,12 +1,15 @@
 // Command sigcli is the trace-validation engine for the signaling CLIENT (C19, C21, C23): the
 // real signaling_rpc_client.Client talks to a scripted relay (honest, dropping, re-opening, or
-// malicious: forged / re-attributed / tampered messages, unsolicited acks and clears, stream
-// failures). Every critical section of the client's peer tracker is logged by the verif hooks
-// and replayed against the Lean LTS Bifrost.SigC (enabledness, post-state, decidable invariants);
-// model-independent monitors state C19 / C21 on what the application observes.
+// malicious: forged / re-attributed / tampered / hand-assembled messages, unsolicited acks and
+// clears, stream failures). Every critical section of the client's peer tracker is logged by the
+// verif hooks and replayed against the Lean LTS Bifrost.SigC (enabledness, post-state, decidable
+// invariants); the verdict handed to the model for every delivered message is the HARNESS's own
+// (stdlib) judgement, never the client's. Model-independent monitors state C19 / C21 / C23 on what
+// the application observes and on what the client puts on the wire.
 package main
 
 import (
+	"bytes"
 	"context"
 	"fmt"
 	"io"
@@ -15,9 +18,7 @@ import (
 	"sync"
 	"time"
 
-	"github.com/aperturerobotics/bifrost/crypto"
 	"github.com/aperturerobotics/bifrost/hash"
-	"github.com/aperturerobotics/bifrost/peer"
 	signaling "github.com/aperturerobotics/bifrost/signaling/rpc"
 	signaling_rpc_client "github.com/aperturerobotics/bifrost/signaling/rpc/client"
 	"github.com/aperturerobotics/starpc/srpc"
@@ -25,35 +26,40 @@ import (
 	"github.com/sirupsen/logrus"
 
 	"verif/harness/lib"
+	"verif/harness/quiet"
+	"verif/harness/sigoracle"
 )
 
 type engine struct {
-	a   *lib.Args
-	rng *lib.Rng
-	m   *lib.Model
-	rep *lib.Report
-	le  *logrus.Entry
-	kA  crypto.PrivKey // local client
-	kB  crypto.PrivKey // the remote peer of the session
-	kC  crypto.PrivKey // a third party
-	idB peer.ID
+	a    *lib.Args
+	rng  *lib.Rng
+	m    *lib.Model
+	rep  *lib.Report
+	le   *logrus.Entry
+	kA   *sigoracle.Key // local client
+	kB   *sigoracle.Key // the remote peer of the session
+	kC   *sigoracle.Key // a third party
+	keys []*sigoracle.Key
 }
+
+const idxB = 2
 
 // relayStream is one Session stream of the scripted relay.
 type relayStream struct {
-	w      *world
-	ctx    context.Context
-	respCh chan *signaling.SessionResponse
-	fail   chan struct{}
-	mtx    sync.Mutex
-	reqs   []*signaling.SessionRequest
+	w        *world
+	ix       int
+	ctx      context.Context
+	respCh   chan *signaling.SessionResponse
+	fail     chan struct{}
+	failOnce sync.Once
 }
+
+// failNow makes the stream fail (once: the client may not have replaced it yet when the relay
+// script fails "the current stream" again).
+func (r *relayStream) failNow() { r.failOnce.Do(func() { close(r.fail) }) }
 
 func (r *relayStream) Context() context.Context { return r.ctx }
 func (r *relayStream) Send(m *signaling.SessionRequest) error {
-	r.mtx.Lock()
-	r.reqs = append(r.reqs, m)
-	r.mtx.Unlock()
 	r.w.onRequest(r, m)
 	return nil
 }
@@ -111,36 +117,64 @@ func (f *fakeRelay) Listen(ctx context.Context, in *signaling.ListenRequest) (si
 func (f *fakeRelay) Session(ctx context.Context) (signaling.SRPCSignaling_SessionClient, error) {
 	r := &relayStream{w: f.w, ctx: ctx, respCh: make(chan *signaling.SessionResponse, 256), fail: make(chan struct{})}
 	f.w.mtx.Lock()
+	r.ix = len(f.w.streams)
 	f.w.streams = append(f.w.streams, r)
 	f.w.mtx.Unlock()
 	return r, nil
 }
 
+// injected is one RecvMsg the scripted relay delivered, with the HARNESS's own verdict about it.
 type injected struct {
+	class     string
 	seqno     uint64
 	mid       int
-	authentic bool // signed by B over this exact payload
-	v, g      int
-	payload   string
+	v, g      int    // stdlib verdict: verifies under the key of the peer it names / that peer is B
+	payload   string // the body the message carries
+	wire      []byte
+	submitted bool // B's client produced exactly this SessionMsg
 	otherDest bool // B submitted it for delivery to another peer
+}
+
+// wireReq is one request the client put on the wire.
+type wireReq struct {
+	stream int
+	kind   string // init | send | ack | clear | other
+	epoch  uint64
+	seqno  uint64
+	msg    *signaling.SessionMsg
 }
 
 type world struct {
 	e          *engine
 	mtx        sync.Mutex
 	log        []string
+	tkr        string // the tracker of this scenario's client (hook lines of other trackers are not ours)
 	streams    []*relayStream
-	inj        map[uint64]*injected // by message seqno (unique per scenario)
-	auto       string               // relay behaviour on a SendMsg request: "", "ack", "reopen-then-ack", "drop"
+	inj        map[uint64]*injected // by outer message seqno (unique per scenario)
+	auto       string               // relay behaviour on a SendMsg request: "", "ack", "reopen-then-ack"
 	epoch      uint64
 	acksIssued map[uint64]bool
 	sent       map[uint64]bool // seqnos the client transmitted
+	wire       []wireReq
 }
 
 func (w *world) sink(line string) {
 	w.mtx.Lock()
 	w.log = append(w.log, line)
 	w.mtx.Unlock()
+}
+
+// lines returns the hook lines of this scenario's tracker.
+func (w *world) lines() []string {
+	w.mtx.Lock()
+	defer w.mtx.Unlock()
+	var out []string
+	for _, l := range w.log {
+		if kvOf(l, "tkr") == w.tkr {
+			out = append(out, l)
+		}
+	}
+	return out
 }
 
 func (w *world) cur() *relayStream {
@@ -167,8 +201,22 @@ func (w *world) respond(r *relayStream, m *signaling.SessionResponse) {
 	}
 }
 
-// onRequest is the relay's automatic behaviour.
+// onRequest records what the client put on the wire and is the relay's automatic behaviour.
 func (w *world) onRequest(r *relayStream, m *signaling.SessionRequest) {
+	wr := wireReq{stream: r.ix, epoch: m.GetSessionSeqno(), kind: "other"}
+	switch b := m.GetBody().(type) {
+	case *signaling.SessionRequest_Init:
+		wr.kind = "init"
+	case *signaling.SessionRequest_SendMsg:
+		wr.kind, wr.seqno, wr.msg = "send", b.SendMsg.GetSeqno(), b.SendMsg
+	case *signaling.SessionRequest_AckMsg:
+		wr.kind, wr.seqno = "ack", b.AckMsg
+	case *signaling.SessionRequest_ClearMsg:
+		wr.kind, wr.seqno = "clear", b.ClearMsg
+	}
+	w.mtx.Lock()
+	w.wire = append(w.wire, wr)
+	w.mtx.Unlock()
 	if b, ok := m.GetBody().(*signaling.SessionRequest_SendMsg); ok {
 		q := b.SendMsg.GetSeqno()
 		w.mtx.Lock()
@@ -192,27 +240,21 @@ func (w *world) onRequest(r *relayStream, m *signaling.SessionRequest) {
 	}
 }
 
-func (e *engine) mkMsg(key crypto.PrivKey, seqno uint64, payload []byte) *signaling.SessionMsg {
-	m, err := signaling.NewSessionMsg(key, hash.HashType_HashType_BLAKE3, payload, seqno)
+func (e *engine) mkMsg(key *sigoracle.Key, seqno uint64, payload []byte) *signaling.SessionMsg {
+	m, err := signaling.NewSessionMsg(key.SK, hash.HashType_HashType_BLAKE3, payload, seqno)
 	if err != nil {
 		panic(err)
 	}
 	return m
 }
 
+// quiesce: the hook log is stable and no goroutine of the process is runnable (package quiet).
 func (w *world) quiesce(d time.Duration) {
-	stable, last := 0, -1
-	for i := 0; i < 3000 && stable < 3; i++ {
-		time.Sleep(d)
+	quiet.Settle(func() int {
 		w.mtx.Lock()
-		n := len(w.log)
-		w.mtx.Unlock()
-		if n == last {
-			stable++
-		} else {
-			stable, last = 0, n
-		}
-	}
+		defer w.mtx.Unlock()
+		return len(w.log) + len(w.wire)
+	}, d, 3, 20*time.Second)
 }
 
 func kvOf(line, k string) string {
@@ -234,11 +276,11 @@ func b01(s string) string {
 	return "0"
 }
 
-// canonical converts the hook log into driver tokens.
+// canonical converts the hook log into driver tokens. For recvmsg / recvrej the verdict (v, g) is
+// the harness's own judgement of the injected message (stdlib), NOT what the client decided: a
+// client that accepts what the harness condemns (or the reverse) no longer replays.
 func (w *world) canonical() string {
-	w.mtx.Lock()
-	lines := append([]string(nil), w.log...)
-	w.mtx.Unlock()
+	lines := w.lines()
 	var toks []string
 	for _, line := range lines {
 		ev := strings.TrimPrefix(strings.SplitN(line, " ", 2)[0], "ev=")
@@ -251,39 +293,25 @@ func (w *world) canonical() string {
 			toks = append(toks, "close,snap="+snap)
 		case "opened":
 			toks = append(toks, fmt.Sprintf("opened,e=%s,snap=%s", kvOf(head, "a"), snap))
-		case "recvmsg":
+		case "recvmsg", "recvrej":
 			q, _ := strconv.ParseUint(kvOf(head, "a"), 10, 64)
-			mid := 0
+			mid, v, g := 0, 0, 0
+			w.mtx.Lock()
 			if in := w.inj[q]; in != nil {
-				mid = in.mid
+				mid, v, g = in.mid, in.v, in.g
 			}
-			toks = append(toks, fmt.Sprintf("recvmsg,q=%d,m=%d,v=1,g=1,snap=%s", q, mid, snap))
-		case "recvrej":
-			q, _ := strconv.ParseUint(kvOf(head, "a"), 10, 64)
-			mid := 0
-			if in := w.inj[q]; in != nil {
-				mid = in.mid
-			}
-			if kvOf(head, "b") == "0" {
-				toks = append(toks, fmt.Sprintf("recvmsg,q=%d,m=%d,v=0,g=1", q, mid))
+			w.mtx.Unlock()
+			if ev == "recvmsg" {
+				toks = append(toks, fmt.Sprintf("recvmsg,q=%d,m=%d,v=%d,g=%d,snap=%s", q, mid, v, g, snap))
 			} else {
-				toks = append(toks, fmt.Sprintf("recvmsg,q=%d,m=%d,v=1,g=0", q, mid))
+				toks = append(toks, fmt.Sprintf("recvmsg,q=%d,m=%d,v=%d,g=%d", q, mid, v, g))
 			}
 		case "clearmsg":
 			toks = append(toks, fmt.Sprintf("clearmsg,k=%s,snap=%s", kvOf(head, "a"), snap))
 		case "ackmsg":
 			toks = append(toks, fmt.Sprintf("ackmsg,k=%s,snap=%s", kvOf(head, "a"), snap))
 		case "txloop":
-			req := "none"
-			ep := kvOf(head, "epoch")
-			if x := kvOf(head, "cancelmsg"); x != "0" {
-				req = "clear:" + ep + ":" + x
-			} else if x := kvOf(head, "sendmsg"); x != "0" {
-				req = "send:" + ep + ":" + x
-			} else if x := kvOf(head, "ackmsg"); x != "0" {
-				req = "ack:" + ep + ":" + x
-			}
-			toks = append(toks, fmt.Sprintf("txloop,req=%s,snap=%s", req, snap))
+			toks = append(toks, fmt.Sprintf("txloop,req=%s,snap=%s", loopReq(head), snap))
 		case "sendstep":
 			res := "-"
 			if kvOf(head, "acked") == "true" {
@@ -302,44 +330,79 @@ func (w *world) canonical() string {
 	return strings.Join(toks, ";")
 }
 
+// loopReq renders the request a txloop hook line says the main loop decided on.
+func loopReq(head string) string {
+	ep := kvOf(head, "epoch")
+	if x := kvOf(head, "cancelmsg"); x != "0" {
+		return "clear:" + ep + ":" + x
+	} else if x := kvOf(head, "sendmsg"); x != "0" {
+		return "send:" + ep + ":" + x
+	} else if x := kvOf(head, "ackmsg"); x != "0" {
+		return "ack:" + ep + ":" + x
+	}
+	return "none"
+}
+
 type sendRes struct {
 	seqno uint64
 	err   error
 	done  bool
+	must  bool // the relay is working for this send: it must succeed
 }
+
+// expected harness verdicts (v, g) per injection class: a self-check of the generators against the oracle
+var classVerdict = map[string][2]int{
+	"authentic": {1, 1}, "authentic-for-other-peer": {1, 1}, "keyed-authentic": {1, 1}, "seqno-rewritten": {1, 1},
+	"altered-copy": {0, 1}, "tampered": {0, 1}, "claimed-sender": {0, 1}, "third-party": {1, 0}, "self": {1, 0},
+	"attached-foreign-key": {0, 1}, "attached-victim-key": {0, 1}, "other-context": {0, 1}, "other-context-keyed": {0, 1},
+	"empty-signature": {0, 1}, "unsigned": {0, 1}, "nil-body": {0, 0}, "empty-data": {0, 1}, "no-sender": {0, 0},
+}
+
+// forgeries are all classes the client must refuse.
+var forgeries = []string{"altered-copy", "tampered", "claimed-sender", "third-party", "self", "attached-foreign-key", "attached-victim-key",
+	"other-context", "other-context-keyed", "empty-signature", "unsigned", "nil-body", "empty-data", "no-sender"}
 
 func (e *engine) scenario(kind string, n int) {
 	w := &world{e: e, inj: map[uint64]*injected{}, acksIssued: map[uint64]bool{}, sent: map[uint64]bool{}, epoch: 1}
 	signaling_rpc_client.VerifSetSink(w.sink)
 	defer signaling_rpc_client.VerifSetSink(nil)
-	cl, err := signaling_rpc_client.NewClient(e.le, &fakeRelay{w: w}, e.kA, &backoff.Backoff{BackoffKind: backoff.BackoffKind_BackoffKind_CONSTANT, Constant: &backoff.Constant{Interval: 1}})
+	cl, err := signaling_rpc_client.NewClient(e.le, &fakeRelay{w: w}, e.kA.SK, &backoff.Backoff{BackoffKind: backoff.BackoffKind_BackoffKind_CONSTANT, Constant: &backoff.Constant{Interval: 1}})
 	if err != nil {
 		panic(err)
 	}
 	ctx, cancel := context.WithCancel(context.Background())
 	defer cancel()
-	cl.SetContext(ctx)
-	ref := cl.AddPeerRef(e.idB.String())
+	ref := cl.AddPeerRef(e.kB.IDStr)
 	defer ref.Release()
+	w.mtx.Lock()
+	w.tkr = ref.VerifTrackerID()
+	w.mtx.Unlock()
+	cl.SetContext(ctx)
+	sess := signaling_rpc_client.NewSessionWithRef(ref) // the signaling.SignalPeerSession the transports use
 	var actions []string
 	act := func(s string) { actions = append(actions, s) }
 	// wait for the first stream
-	for i := 0; i < 2000 && w.cur() == nil; i++ {
+	for i := 0; i < 100000 && w.cur() == nil; i++ {
 		time.Sleep(100 * time.Microsecond)
 	}
 	var rmtx sync.Mutex
-	var received []*signaling.SessionMsg
+	var received []*signaling.SessionMsg // returned by ClientPeerRef.Recv
+	var receivedData [][]byte            // returned by Session.Recv (the body only)
 	var sends []*sendRes
+	var apps sync.WaitGroup
 	nextInj := uint64(100)
-	startSend := func(timeout time.Duration) {
-		sr := &sendRes{}
+	startSendOpt := func(timeout time.Duration, must bool) *sendRes {
+		sr := &sendRes{must: must}
 		rmtx.Lock()
 		sends = append(sends, sr)
 		rmtx.Unlock()
+		payload := e.rng.Bytes(4)
+		apps.Add(1)
 		go func() {
+			defer apps.Done()
 			sctx, scancel := context.WithTimeout(ctx, timeout)
 			defer scancel()
-			m, err := ref.Send(sctx, e.rng.Bytes(4))
+			m, err := ref.Send(sctx, payload)
 			rmtx.Lock()
 			sr.err, sr.done = err, true
 			if m != nil {
@@ -347,11 +410,26 @@ func (e *engine) scenario(kind string, n int) {
 			}
 			rmtx.Unlock()
 		}()
+		return sr
 	}
+	startSend := func(timeout time.Duration) { startSendOpt(timeout, false) }
+	forceRef := false // true: the next Recv calls go through ClientPeerRef.Recv (the whole SessionMsg is handed over)
 	startRecv := func(timeout time.Duration) {
+		viaSession := e.rng.Intn(2) == 0 && !forceRef
+		apps.Add(1)
 		go func() {
+			defer apps.Done()
 			rctx, rcancel := context.WithTimeout(ctx, timeout)
 			defer rcancel()
+			if viaSession {
+				data, err := sess.Recv(rctx)
+				if err == nil {
+					rmtx.Lock()
+					receivedData = append(receivedData, data)
+					rmtx.Unlock()
+				}
+				return
+			}
 			m, err := ref.Recv(rctx)
 			if err == nil && m != nil {
 				rmtx.Lock()
@@ -361,44 +439,64 @@ func (e *engine) scenario(kind string, n int) {
 		}()
 	}
 	var lastAuthentic *signaling.SessionMsg
+	var lastAuthenticMid int
 	inject := func(how string) {
-		if how == "altered-copy" && lastAuthentic == nil {
+		if (how == "altered-copy" || how == "seqno-rewritten") && lastAuthentic == nil {
 			how = "tampered"
+		}
+		if how == "nil-recvmsg" { // a RecvMsg response without a message: nothing to accept, nothing to log
+			w.respond(w.cur(), &signaling.SessionResponse{Body: &signaling.SessionResponse_RecvMsg{}})
+			return
 		}
 		nextInj++
 		q := nextInj
-		payload := e.rng.Bytes(6)
-		in := &injected{seqno: q, mid: int(q), payload: string(payload)}
+		payload := append(e.rng.Bytes(6), byte(q), byte(q>>8))
+		in := &injected{class: how, seqno: q, mid: int(q)}
 		var m *signaling.SessionMsg
 		switch how {
 		case "authentic":
 			m = e.mkMsg(e.kB, q, payload)
-			in.authentic, in.v, in.g = true, 1, 1
-			lastAuthentic = m
+			in.submitted = true
+			lastAuthentic, lastAuthenticMid = m, in.mid
+		case "keyed-authentic": // B's own (redundant) public key attached
+			m = sigoracle.KeyedAuthentic(e.kB, payload, q)
+			in.submitted = true
 		case "altered-copy": // signature and sender of the last authentic message, other payload
 			m = lastAuthentic.CloneVT()
 			m.Seqno = q
 			m.SignedMsg.Data = payload
-			in.v, in.g = 0, 1
+		case "seqno-rewritten": // the last authentic message, only the outer (unsigned) sequence number changed
+			m = lastAuthentic.CloneVT()
+			m.Seqno = q
+			in.mid = lastAuthenticMid
 		case "authentic-for-other-peer":
 			m = e.mkMsg(e.kB, q, payload)
-			in.authentic, in.v, in.g = true, 1, 1
+			in.submitted = true
 			in.otherDest = true
 		case "third-party": // validly signed by C, presented on the session with B (re-attribution)
 			m = e.mkMsg(e.kC, q, payload)
-			in.v, in.g = 1, 0
 		case "self": // validly signed by A itself
 			m = e.mkMsg(e.kA, q, payload)
-			in.v, in.g = 1, 0
 		case "tampered":
 			m = e.mkMsg(e.kB, q, payload)
 			m.SignedMsg.Data[0] ^= 0x40
-			in.v, in.g = 0, 1
-		case "claimed-sender": // signed by C but claiming to be from B
-			m = e.mkMsg(e.kC, q, payload)
-			m.SignedMsg.FromPeerId = e.idB.String()
-			in.v, in.g = 0, 1
+		default:
+			fm, ok := sigoracle.Forged(how, e.kB, e.kC, payload, q)
+			if !ok {
+				panic("unknown injection class " + how)
+			}
+			m = fm
 		}
+		v, claimed := sigoracle.Verdict(e.keys, m)
+		in.v = v
+		if claimed == idxB {
+			in.g = 1
+		}
+		if want, ok := classVerdict[how]; !ok || want != [2]int{in.v, in.g} {
+			panic(fmt.Sprintf("harness self-check: injection class %s: oracle verdict v=%d g=%d, construction says %v", how, in.v, in.g, want))
+		}
+		in.payload = string(m.GetSignedMsg().GetData())
+		in.wire, _ = m.MarshalVT()
 		w.mtx.Lock()
 		w.inj[q] = in
 		w.mtx.Unlock()
@@ -419,12 +517,21 @@ func (e *engine) scenario(kind string, n int) {
 		w.mtx.Unlock()
 		w.respond(w.cur(), &signaling.SessionResponse{Body: &signaling.SessionResponse_Opened{Opened: ep}})
 	}
+	// freshStream waits until the client has replaced the stream `old` (after a failure / a rejected message)
+	freshStream := func(old *relayStream) {
+		deadline := time.Now().Add(3 * time.Second)
+		for w.cur() == old && time.Now().Before(deadline) {
+			time.Sleep(100 * time.Microsecond)
+		}
+	}
+	progress := false
 	switch kind {
 	case "honest":
+		progress = true
 		w.auto = "ack"
 		open()
 		for i := 0; i < n; i++ {
-			startSend(3 * time.Second)
+			startSendOpt(10*time.Second, true)
 			startRecv(400 * time.Millisecond)
 			inject("authentic")
 			jitter()
@@ -432,18 +539,87 @@ func (e *engine) scenario(kind string, n int) {
 		act("honest relay: open, ack every send, deliver authentic messages")
 	case "reopen-in-flight":
 		// F11 sentinel: Opened(e+1) arrives while Send's message is pending; then it is acked
+		progress = true
 		w.auto = "reopen-then-ack"
 		open()
-		startSend(3 * time.Second)
+		startSendOpt(10*time.Second, true)
 		act("open; send; relay re-opens in flight; then acks the re-transmission")
 		w.quiesce(500 * time.Microsecond)
-		startSend(3 * time.Second) // a later send must not be blocked
+		startSendOpt(10*time.Second, true) // a later send must not be blocked
 		act("second send")
+	case "stream-failure-in-flight":
+		// C23: the SENDER's stream fails while its message is in flight (transmitted, not acked); the
+		// client re-connects, the session re-opens, and the pending Send must still complete
+		progress = true
+		w.auto = ""
+		open()
+		for i := 0; i < n; i++ {
+			sr := startSendOpt(10*time.Second, true)
+			// wait until the message is on the wire, then kill the stream
+			for k := 0; k < 100000; k++ {
+				w.mtx.Lock()
+				on := false
+				for _, x := range w.wire {
+					if x.kind == "send" && x.stream == len(w.streams)-1 {
+						on = true
+					}
+				}
+				w.mtx.Unlock()
+				if on {
+					break
+				}
+				time.Sleep(100 * time.Microsecond)
+			}
+			old := w.cur()
+			old.failNow()
+			freshStream(old)
+			w.mtx.Lock()
+			w.auto = "ack"
+			w.mtx.Unlock()
+			open()
+			for k := 0; k < 100000; k++ {
+				rmtx.Lock()
+				d := sr.done
+				rmtx.Unlock()
+				if d {
+					break
+				}
+				time.Sleep(100 * time.Microsecond)
+			}
+			w.mtx.Lock()
+			w.auto = ""
+			w.mtx.Unlock()
+		}
+		act("rounds of: Send; once the message is on the wire the stream fails; client re-connects; relay re-opens and acks the re-transmission")
+	case "cancel-then-send":
+		// C23: a Send whose caller gives up after 1 ms (never acknowledged) followed by a Send that
+		// the relay acknowledges: the client must wake up, withdraw the first and complete the second
+		progress = true
+		w.auto = ""
+		open()
+		for i := 0; i < n; i++ {
+			w.mtx.Lock()
+			w.auto = ""
+			w.mtx.Unlock()
+			startSendOpt(time.Millisecond, false)
+			if e.rng.Intn(2) == 0 {
+				time.Sleep(time.Duration(e.rng.Intn(3000)) * time.Microsecond)
+			} else {
+				w.quiesce(300 * time.Microsecond)
+			}
+			w.mtx.Lock()
+			w.auto = "ack"
+			w.mtx.Unlock()
+			startSendOpt(10*time.Second, true)
+			w.quiesce(300 * time.Microsecond)
+		}
+		act("rounds of: Send with a 1 ms deadline that the relay never acknowledges; then a Send that it does acknowledge")
 	case "cancel-after-ack":
 		// the ack for m arrives while the caller of Send(m) is about to be cancelled: whichever
 		// way the race goes, a LATER Send must still wait for its own ack
 		w.auto = ""
 		open()
+		w.quiesce(300 * time.Microsecond) // the tracker is open before the first Send looks at it
 		for i := 0; i < n; i++ {
 			inner, icancel := context.WithCancel(ctx)
 			pc := &parkCtx{Context: inner, armed: true, parked: make(chan struct{}), gate: make(chan struct{})}
@@ -458,8 +634,11 @@ func (e *engine) scenario(kind string, n int) {
 			}
 			w.mtx.Unlock()
 			fin := make(chan struct{})
+			payload := e.rng.Bytes(4)
+			apps.Add(1)
 			go func() {
-				m, err := ref.Send(pc, e.rng.Bytes(4))
+				defer apps.Done()
+				m, err := ref.Send(pc, payload)
 				rmtx.Lock()
 				sr.err, sr.done = err, true
 				if m != nil {
@@ -470,11 +649,11 @@ func (e *engine) scenario(kind string, n int) {
 			}()
 			select {
 			case <-pc.parked:
-			case <-time.After(2 * time.Second):
+			case <-time.After(3 * time.Second):
 			}
 			// the tracker transmits m on its own; ack it while the caller is parked
 			var q uint64
-			for k := 0; k < 2000 && q == 0; k++ {
+			for t0 := time.Now(); q == 0 && time.Since(t0) < time.Second; {
 				w.mtx.Lock()
 				for x := range w.sent {
 					if !before[x] {
@@ -494,14 +673,13 @@ func (e *engine) scenario(kind string, n int) {
 			close(pc.gate)
 			select {
 			case <-fin:
-			case <-time.After(2 * time.Second):
+			case <-time.After(3 * time.Second):
 			}
 			w.quiesce(300 * time.Microsecond)
 			// probe: never acknowledged by the relay, so it must not report success
 			startSend(15 * time.Millisecond)
 			time.Sleep(20 * time.Millisecond)
 			w.quiesce(300 * time.Microsecond)
-			// drop the probe at the relay so that the next round starts clean
 		}
 		act("rounds of: Send(m) parked before its select; relay acks m; caller cancelled; then a probe Send that the relay never acks")
 	case "altered-retransmission":
@@ -516,11 +694,51 @@ func (e *engine) scenario(kind string, n int) {
 			if i%2 == 1 {
 				open()
 			}
+			old := w.cur()
 			inject("altered-copy")
 			startRecv(300 * time.Millisecond)
 			w.quiesce(300 * time.Microsecond)
+			freshStream(old)
+			open()
 		}
 		act("rounds of: deliver authentic M; [re-open]; deliver M's signature and sender with another payload")
+	case "forgery-classes":
+		// C19 sentinel: with the session open and the application waiting in Recv, the relay delivers
+		// one message of every forgery class (each must be refused: the session routine fails and
+		// re-connects), with authentic messages (plain and with B's own key attached) in between
+		w.auto = ""
+		open()
+		classes := append([]string(nil), forgeries...)
+		classes = append(classes, "keyed-authentic", "authentic", "nil-recvmsg")
+		e.rng.Shuffle(len(classes), func(i, j int) { classes[i], classes[j] = classes[j], classes[i] })
+		inject("authentic")
+		startRecv(300 * time.Millisecond)
+		w.quiesce(300 * time.Microsecond)
+		for _, c := range classes {
+			old := w.cur()
+			startRecv(40 * time.Millisecond)
+			inject(c)
+			w.quiesce(300 * time.Microsecond)
+			act("inject " + c)
+			if c != "keyed-authentic" && c != "authentic" && c != "nil-recvmsg" {
+				freshStream(old)
+				open()
+			}
+		}
+		time.Sleep(45 * time.Millisecond)
+	case "seqno-rewrite":
+		// Known finding (format level): SessionMsg.seqno is outside the signature, so the relay can
+		// re-present an authentic message of B under another sequence number and the client accepts it
+		w.auto = ""
+		forceRef = true
+		open()
+		inject("authentic")
+		startRecv(300 * time.Millisecond)
+		w.quiesce(300 * time.Microsecond)
+		inject("seqno-rewritten")
+		startRecv(300 * time.Millisecond)
+		w.quiesce(300 * time.Microsecond)
+		act("deliver authentic M; deliver M again with only the outer sequence number changed")
 	case "replay":
 		// Known finding (format level): a message B signed for delivery to ANOTHER peer (or in an
 		// earlier session) carries no destination/session, so the relay can replay it to A.
@@ -533,7 +751,7 @@ func (e *engine) scenario(kind string, n int) {
 		w.auto = ""
 		open()
 		for i := 0; i < n; i++ {
-			switch e.rng.Intn(12) {
+			switch e.rng.Intn(14) {
 			case 0:
 				inject("third-party")
 				act("inject third-party")
@@ -581,11 +799,21 @@ func (e *engine) scenario(kind string, n int) {
 				act("recv")
 			case 11:
 				if r := w.cur(); r != nil && e.rng.Intn(3) == 0 {
-					close(r.fail)
+					r.failNow()
 					act("stream failure")
 					time.Sleep(3 * time.Millisecond)
 					open()
 				}
+			case 12:
+				classes := append(append([]string(nil), forgeries...), "keyed-authentic", "nil-recvmsg")
+				c := classes[e.rng.Intn(len(classes))]
+				inject(c)
+				act("inject " + c)
+			case 13:
+				open()
+				inject("authentic")
+				startRecv(300 * time.Millisecond)
+				act("re-open; inject authentic; recv")
 			}
 			jitter()
 		}
@@ -594,44 +822,9 @@ func (e *engine) scenario(kind string, n int) {
 	// let pending short-deadline sends expire
 	time.Sleep(8 * time.Millisecond)
 	w.quiesce(2 * time.Millisecond)
-	trace := w.canonical()
-	op := "sigc.trace evs=" + trace
-	model := e.m.Query(op)
-	mon := ""
-	key := "sigcli.trace:" + kind
-	// ---- model-independent monitors ----
-	rmtx.Lock()
-	for _, m := range received {
-		in := w.inj[m.GetSeqno()]
-		if in == nil || !in.authentic || string(m.GetSignedMsg().GetData()) != in.payload {
-			mon = fmt.Sprintf("the application was handed a message (seqno %d) that was not signed by the remote peer of the session over that payload", m.GetSeqno())
-			key = "sigcli.recv:forged"
-		} else if in.otherDest {
-			mon = "the application was handed a message from B that B had submitted for delivery to a different peer (the signed message names neither destination nor session, so a relay can replay it)"
-			key = "sigcli.recv:cross-destination"
-		}
-	}
-	okSends, pending := 0, 0
-	for _, s := range sends {
-		if !s.done {
-			pending++
-			continue
-		}
-		if s.err == nil {
-			okSends++
-			w.mtx.Lock()
-			acked := w.acksIssued[s.seqno]
-			w.mtx.Unlock()
-			if !acked {
-				mon = fmt.Sprintf("Send of message %d reported success but the relay never acknowledged that message", s.seqno)
-				key = "sigcli.send:unacked"
-			}
-		}
-	}
-	rmtx.Unlock()
-	if kind == "honest" || kind == "reopen-in-flight" {
-		// progress with a working relay: every send completes
-		deadline := time.Now().Add(3 * time.Second)
+	if progress {
+		// progress with a working relay: every send the relay serves completes
+		deadline := time.Now().Add(30 * time.Second)
 		for time.Now().Before(deadline) {
 			rmtx.Lock()
 			all := true
@@ -646,17 +839,155 @@ func (e *engine) scenario(kind string, n int) {
 			}
 			time.Sleep(time.Millisecond)
 		}
-		rmtx.Lock()
-		for _, s := range sends {
-			if !s.done || s.err != nil {
-				mon = "with a working relay (session open, sends acknowledged) a pending Send did not succeed: " + fmt.Sprint(s.err)
-				key = "sigcli.progress:" + kind
-			}
-		}
-		rmtx.Unlock()
+		w.quiesce(2 * time.Millisecond)
+	}
+	// A verdict is taken at quiescence; if a monitor fires or the replay diverges, settle longer and
+	// evaluate everything again (what is reported is what persists on the complete log).
+	var trace, op, model, mon, key string
+	okSends := 0
+	for attempt := 0; ; attempt++ {
 		trace = w.canonical()
 		op = "sigc.trace evs=" + trace
 		model = e.m.Query(op)
+		mon = ""
+		key = "sigcli.trace:" + kind
+		// monitors are ranked: a violation outranks a known finding
+		rank := 0
+		set := func(r int, k, m string) {
+			if r > rank {
+				rank, key, mon = r, k, m
+			}
+		}
+		// ---- model-independent monitors ----
+		rmtx.Lock()
+		w.mtx.Lock()
+		// C19 on what ClientPeerRef.Recv returned: judged on the returned message itself with the stdlib
+		for _, m := range received {
+			in := w.inj[m.GetSeqno()]
+			wire, _ := m.MarshalVT()
+			switch {
+			case !sigoracle.AuthenticFrom(e.kB, m):
+				set(3, "sigcli.recv:forged", fmt.Sprintf("the application was handed a message (seqno %d, injection class %s) that does not verify under the key of the session's remote peer over the body it carries (stdlib)", m.GetSeqno(), classOf(in)))
+			case in == nil || !bytes.Equal(in.wire, wire):
+				set(3, "sigcli.recv:forged", fmt.Sprintf("the application was handed a message (seqno %d) that the relay never delivered in that form", m.GetSeqno()))
+			case in.v != 1 || in.g != 1:
+				set(3, "sigcli.recv:forged", fmt.Sprintf("the application was handed a message (seqno %d, injection class %s) that was not signed by the remote peer of the session over that payload", m.GetSeqno(), in.class))
+			case in.otherDest:
+				set(1, "sigcli.recv:cross-destination", "the application was handed a message from B that B had submitted for delivery to a different peer (the signed message names neither destination nor session, so a relay can replay it)")
+			case !in.submitted:
+				set(1, "sigcli.recv:seqno-rewritten", "the application was handed an authentic message of B whose sequence number the relay had rewritten (SessionMsg.seqno is not covered by the signature): the client accepted a message the relay modified")
+			}
+		}
+		// C19 on what Session.Recv returned (the body only): some authentic message of B carries it
+		for _, data := range receivedData {
+			var auth, authHere int
+			for _, in := range w.inj {
+				if in.payload == string(data) && in.v == 1 && in.g == 1 {
+					auth++
+					if !in.otherDest {
+						authHere++
+					}
+				}
+			}
+			switch {
+			case auth == 0:
+				set(3, "sigcli.recv:forged", fmt.Sprintf("the application was handed a body (Session.Recv, %x) that no message signed by the remote peer of the session carries", data))
+			case authHere == 0:
+				set(1, "sigcli.recv:cross-destination", "the application was handed a message from B that B had submitted for delivery to a different peer (the signed message names neither destination nor session, so a relay can replay it)")
+			}
+		}
+		// C21: Send success only after an ack for that very message
+		okSends = 0
+		pending := 0
+		okSeq := map[uint64]bool{}
+		for _, s := range sends {
+			if !s.done {
+				pending++
+				continue
+			}
+			if s.err == nil {
+				okSends++
+				okSeq[s.seqno] = true
+				if !w.acksIssued[s.seqno] {
+					set(3, "sigcli.send:unacked", fmt.Sprintf("Send of message %d reported success but the relay never acknowledged that message", s.seqno))
+				}
+			}
+		}
+		// C21 on the wire: what the client transmitted is what its main loop decided (hook), acks name
+		// messages the application received, clears name messages the client had sent and whose Send failed
+		var decided []string
+		for _, line := range w.linesLocked() {
+			if strings.HasPrefix(line, "ev=txloop ") {
+				ti := strings.Index(line, " open=")
+				if r := loopReq(line[:ti]); r != "none" {
+					decided = append(decided, r)
+				}
+			}
+		}
+		var onWire []string
+		deliveredSeq := map[uint64]bool{}
+		for _, m := range received {
+			deliveredSeq[m.GetSeqno()] = true
+		}
+		for _, data := range receivedData {
+			for _, in := range w.inj {
+				if in.payload == string(data) {
+					deliveredSeq[in.seqno] = true
+				}
+			}
+		}
+		recvSteps := 0
+		for _, line := range w.linesLocked() {
+			if strings.HasPrefix(line, "ev=recvstep ") && kvOf(line, "flag") == "true" {
+				recvSteps++
+			}
+		}
+		sentBefore := map[[2]uint64]bool{} // (stream, seqno)
+		for _, x := range w.wire {
+			switch x.kind {
+			case "init":
+				continue
+			case "send":
+				onWire = append(onWire, fmt.Sprintf("send:%d:%d", x.epoch, x.seqno))
+				sentBefore[[2]uint64{uint64(x.stream), x.seqno}] = true
+				if !sigoracle.AuthenticFrom(e.kA, x.msg) {
+					set(3, "sigcli.wire:unsigned", fmt.Sprintf("the client transmitted message %d that does not verify under its own key (stdlib)", x.seqno))
+				}
+			case "ack":
+				onWire = append(onWire, fmt.Sprintf("ack:%d:%d", x.epoch, x.seqno))
+				// every Recv call that took a message has returned by now (recvSteps == deliveries recorded)
+				if recvSteps == len(received)+len(receivedData) && !deliveredSeq[x.seqno] {
+					set(3, "sigcli.wire:ack-undelivered", fmt.Sprintf("the client acknowledged message %d, which its application never received", x.seqno))
+				}
+			case "clear":
+				onWire = append(onWire, fmt.Sprintf("clear:%d:%d", x.epoch, x.seqno))
+				if !sentBefore[[2]uint64{uint64(x.stream), x.seqno}] {
+					set(3, "sigcli.wire:clear-unsent", fmt.Sprintf("the client withdrew message %d, which it had not transmitted on that stream", x.seqno))
+				}
+				if okSeq[x.seqno] {
+					set(3, "sigcli.wire:clear-acked", fmt.Sprintf("the client withdrew message %d although its Send reported success", x.seqno))
+				}
+			default:
+				onWire = append(onWire, "other")
+			}
+		}
+		if strings.Join(onWire, ";") != strings.Join(decided, ";") {
+			set(2, "sigcli.wire:mismatch", fmt.Sprintf("the requests the client put on the wire [%s] are not the requests its main loop decided on [%s] (an ack/clear/send naming another message or epoch)", lib.Trunc(strings.Join(onWire, ";")), lib.Trunc(strings.Join(decided, ";"))))
+		}
+		if progress {
+			for _, s := range sends {
+				if s.must && (!s.done || s.err != nil) {
+					set(3, "sigcli.progress:"+kind, "with a working relay (session open, sends acknowledged) a pending Send did not succeed: "+fmt.Sprint(s.err))
+				}
+			}
+		}
+		w.mtx.Unlock()
+		rmtx.Unlock()
+		_ = pending
+		if (rank < 2 && strings.HasPrefix(model, "ok ")) || attempt >= 3 {
+			break
+		}
+		w.quiesce(time.Duration(5*(attempt+1)) * time.Millisecond)
 	}
 	impl := "ok"
 	mshort := model
@@ -682,28 +1013,70 @@ func (e *engine) scenario(kind string, n int) {
 	e.rep.Extra["events"] = e.rep.Extra["events"].(int) + strings.Count(trace, ";") + 1
 	e.rep.Extra["sends_ok"] = e.rep.Extra["sends_ok"].(int) + okSends
 	rmtx.Lock()
-	e.rep.Extra["delivered"] = e.rep.Extra["delivered"].(int) + len(received)
+	e.rep.Extra["delivered"] = e.rep.Extra["delivered"].(int) + len(received) + len(receivedData)
+	e.rep.Extra["delivered_via_session"] = e.rep.Extra["delivered_via_session"].(int) + len(receivedData)
 	rmtx.Unlock()
+	w.mtx.Lock()
+	e.rep.Extra["wire_requests"] = e.rep.Extra["wire_requests"].(int) + len(w.wire)
+	w.mtx.Unlock()
 	cancel()
 	cl.ClearContext()
-	time.Sleep(time.Millisecond)
+	// the application goroutines of this scenario end with its context
+	fin := make(chan struct{})
+	go func() { apps.Wait(); close(fin) }()
+	select {
+	case <-fin:
+	case <-time.After(10 * time.Second):
+	}
+}
+
+// linesLocked is lines() for callers already holding w.mtx.
+func (w *world) linesLocked() []string {
+	var out []string
+	for _, l := range w.log {
+		if kvOf(l, "tkr") == w.tkr {
+			out = append(out, l)
+		}
+	}
+	return out
+}
+
+func classOf(in *injected) string {
+	if in == nil {
+		return "?"
+	}
+	return in.class
 }
 
 func (e *engine) run() {
-	e.rep.Rule = "the real signaling client against a scripted relay: honest (open, ack, deliver), re-open while a send is in flight (F11 sentinel), ack racing the caller's cancellation followed by a never-acknowledged probe Send, an authentic message followed by its signature re-presented with another payload, malicious (third-party / tampered / altered-copy / claimed-sender / self-signed messages, unsolicited acks and clears, re-opens, closes, stream failures) with concurrent Send (incl. short deadlines = cancel) and Recv calls; every tracker critical section replayed on the Lean LTS; distinct = distinct schedule"
-	e.rep.Require("trace.honest", "trace.reopen-in-flight", "trace.malicious", "trace.cancel-after-ack", "trace.altered-retransmission")
-	e.rep.Extra["events"], e.rep.Extra["sends_ok"], e.rep.Extra["delivered"] = 0, 0, 0
+	e.rep.Rule = "the real signaling client against a scripted relay: honest (open, ack, deliver), re-open while a send is in flight (F11 sentinel), the sender's stream failing with a message in flight, a 1 ms Send followed by a served Send, ack racing the caller's cancellation followed by a never-acknowledged probe Send, an authentic message followed by its signature re-presented with another payload, every forgery class with the application waiting (third-party / tampered / altered-copy / claimed-sender / self-signed; hand-assembled: foreign key attached, victim key attached + foreign signature, other signing context, empty signature, unsigned, nil body, empty body, no sender), an authentic message with only its outer sequence number rewritten, malicious random schedules of all of these with unsolicited acks and clears, re-opens, closes, stream failures and concurrent Send (incl. short deadlines = cancel) and Recv calls (half of them through Session.Recv); every tracker critical section replayed on the Lean LTS with the harness's own verdict per message; wire requests compared with the main loop's decisions; distinct = distinct schedule"
+	e.rep.Require("trace.honest", "trace.reopen-in-flight", "trace.malicious", "trace.cancel-after-ack", "trace.altered-retransmission", "trace.forgery-classes", "trace.stream-failure-in-flight", "trace.cancel-then-send")
+	for _, k := range []string{"events", "sends_ok", "delivered", "delivered_via_session", "wire_requests"} {
+		e.rep.Extra[k] = 0
+	}
 	e.scenario("reopen-in-flight", 1)
 	e.scenario("cancel-after-ack", 4)
 	e.scenario("altered-retransmission", 3)
+	e.scenario("forgery-classes", 1)
+	e.scenario("stream-failure-in-flight", 2)
+	e.scenario("cancel-then-send", 3)
 	if e.a.Prop == "C19" {
+		e.rep.Require("trace.replay", "trace.seqno-rewrite")
 		e.scenario("replay", 1)
+		e.scenario("seqno-rewrite", 1)
 	}
 	for i := 0; i < 3*e.a.Scale; i++ {
 		e.scenario("honest", 2+e.rng.Intn(4))
 	}
 	for i := 0; i < 25*e.a.Scale; i++ {
 		e.scenario("malicious", 8+e.rng.Intn(25))
+	}
+	if e.a.Scale > 1 {
+		for i := 0; i < e.a.Scale; i++ {
+			e.scenario("forgery-classes", 1)
+			e.scenario("stream-failure-in-flight", 1+e.rng.Intn(3))
+			e.scenario("cancel-then-send", 1+e.rng.Intn(4))
+		}
 	}
 }
 
@@ -714,17 +1087,10 @@ func main() {
 	lg.SetOutput(io.Discard)
 	e := &engine{a: a, rng: lib.NewRng(a.Seed), m: lib.NewModel(a.Driver), le: logrus.NewEntry(lg)}
 	e.rep = lib.NewReport("sigcli", a)
-	mk := func() (crypto.PrivKey, peer.ID) {
-		p, err := peer.NewPeer(nil)
-		if err != nil {
-			panic(err)
-		}
-		k, _ := p.GetPrivKey(context.Background())
-		return k, p.GetPeerID()
-	}
-	e.kA, _ = mk()
-	e.kB, e.idB = mk()
-	e.kC, _ = mk()
+	e.kA = sigoracle.NewKey(e.rng.Bytes(32))
+	e.kB = sigoracle.NewKey(e.rng.Bytes(32))
+	e.kC = sigoracle.NewKey(e.rng.Bytes(32))
+	e.keys = []*sigoracle.Key{nil, e.kA, e.kB, e.kC}
 	switch a.Prop {
 	case "C19", "C21", "C23":
 		e.run()
